@@ -69,7 +69,7 @@ def _setup(proto, nodes, children):
     return ops
 
 
-def gen(seed: int, i: int, tier: str) -> dict:
+def _gen(seed: int, i: int, tier: str) -> dict:
     rng = random.Random(f"C07:{seed}:{i}")
     nshort = G.short_history_count(len(SHORT), 4)
     short = None
@@ -102,7 +102,7 @@ def gen(seed: int, i: int, tier: str) -> dict:
             else:
                 ops.append(["line", f"{rng.choice([1, 2])};0;1;0;2;{G.payload(rng)}\n"])
         return {"cfg": {"pin": proto}, "kind": "1x", "ops": ops}
-    proto = rng.choice(G.PROTOS_2X)
+    proto = pin = rng.choice(G.PROTOS_2X)
     nodes = rng.sample([0, 1, 2, 3, 9, 254], rng.randint(1, 3))
     children = rng.sample([0, 1, 7, 254], rng.randint(1, 2))
     types = rng.sample([2, 3, 24, 47], rng.randint(1, 2))
@@ -131,11 +131,23 @@ def gen(seed: int, i: int, tier: str) -> dict:
             # node presenting itself after a restart - parked commands must survive that
             ops.append(["line", rng.choice([f"0;255;3;0;2;{proto}\n", f"0;255;0;0;18;{proto}\n",
                                             "0;255;3;0;14;Gateway startup complete.\n"])])
-        else:
+        elif r < 0.975:
             ops.append(["relisten"])
+        elif r < 0.99:
+            ops.append(["reenter"])
+        else:
+            # the gateway was updated: it reports another 2.x version; parked commands survive, the wake signal
+            # of the new protocol applies from here on
+            proto = rng.choice([p for p in G.PROTOS_2X if p != proto])
+            ops.append(["line", rng.choice([f"0;255;3;0;2;{proto}.0\n", f"0;255;0;0;18;{proto}\n"])])
     for n in nodes:
         ops.append(["line", G.wake_line(proto, n, 99)])
-    return {"cfg": {"pin": proto}, "kind": "long", "ops": ops}
+    return {"cfg": {"pin": pin}, "kind": "long", "ops": ops}
+
+
+def gen(seed: int, i: int, tier: str) -> dict:
+    scn = _gen(seed, i, tier)
+    return G.maybe_tcp(random.Random(f"C07link:{seed}:{i}"), scn)
 
 
 def run(scn):
@@ -168,14 +180,14 @@ def run(scn):
             parts = op[1].rstrip("\n").split(";")
             if len(parts) >= 6 and parts[2] == "3" and obs.kind == "ok":
                 n, t = int(parts[0]), int(parts[4])
-                is_wake = (t == 22 and proto in ("2.0", "2.1")) or (t == 32 and proto == "2.2")
+                is_wake = (t == 22 and model.proto in ("2.0", "2.1")) or (t == 32 and model.proto == "2.2")
                 if is_wake:
                     if any(ok and ln.split(";")[2] == "1" for ln, ok in obs.writes):
                         st["parked_then_wake"] = True
                         st["flushed"].add(n)
                     if any(k[0] != n for k in model.parked):
                         res.probes["wake_of_other_node"] += 1
-                if t == 22 and proto == "2.2" and any(k[0] == n for k in model.parked):
+                if t == 22 and model.proto == "2.2" and any(k[0] == n for k in model.parked):
                     res.probes["heartbeat_22_no_flush"] += 1
                 if parts[0] == "0" and (parts[4] == "2" or parts[2] == "0") and model.parked:
                     res.probes["version_report_while_parked"] += 1
